@@ -12,6 +12,22 @@ import sys
 
 pid = sys.argv[1]
 extra = ""
+# optional second argument "w11": API-level histories and combinations of options / legal-but-exotic inputs
+if len(sys.argv) > 2 and sys.argv[2] == "w11":
+    extra = ("This time think about uses of the library that the property covers but that a conversion of a typical file never exercises: the "
+             "CaptionConverter front end (read / write with keyword arguments); a caption set that is edited through its API after reading and before "
+             "writing (set_captions, set_layout_info, set_styles / add_style, adjust_caption_timing, merge_concurrent_captions, CaptionList slicing and "
+             "concatenation, nodes appended to a caption); two or three options combined (reader lang with offset or time shift; relativize off with fit on "
+             "and only one video dimension; force with write_inline_positioning; positioning given to the single-position writer); inputs that are legal "
+             "but exotic (byte order mark, CR LF or CR line ends, tabs, trailing blanks, upper-case tags and attributes, empty or zero-length cues, a cue at "
+             "time zero, times beyond 24 hours, a document with one cue, a language with one caption, very long lines, characters outside the basic "
+             "multilingual plane). A change may also sit in code that only such a use reaches. Two cooperating edits in different functions are welcome. "
+             "Avoid what earlier rounds did to death: state left on a reused reader / writer object, memo caches, set() ordering, the local lists of "
+             "merge_concurrent_captions, Padding.__eq__ / Layout.__eq__, the regular expression of Size.from_string, an untagged DFXP div inheriting the "
+             "previous div's language, `>` versus `>=` on the 32-column limit, zero treated as missing, is_empty(). "
+             "In addition to the three changes: while you read the code, note anything in the UNMODIFIED library that already seems to violate the property "
+             "above for some input (a pre-existing defect); do not use it in your changes, just describe it (input, what happens, what should happen) at the end "
+             "of your final message under the heading 'Pre-existing suspects'. ")
 # optional second argument "w10": secondary grammar features, inheritance of attributes, plumbing of options
 if len(sys.argv) > 2 and sys.argv[2] == "w10":
     extra = ("This time look at the secondary features of the formats and at plumbing, wherever a slip there breaks the property above: in DFXP the inheritance "
